@@ -123,6 +123,10 @@ def _consume(acc, seq, fresh):
 
 def shard(s):
     acc = core.Acc()
+    if s[0] == "DB":
+        for pat in spaces.window_complete_chunks(R.SYM, 6, s[1]):
+            _consume(acc, R.spell_rotating(pat, len(pat)), False)
+        return acc
     if s[0] == "P":
         _, L, pre = s
         for pat in spaces.shard_words(R.SYM, L, pre):
@@ -159,6 +163,7 @@ def run(tier, seed, t0):
     shards = [("P",) + s for s in spaces.word_shards(R.SYM, 1, L, 4 if L <= 10 else 5)]
     sp, comps = sparse_shards(tier)
     shards += sp
+    shards += [("DB", (L_,)) for L_ in ((23, 41) if tier == "quick" else (17, 23, 31, 41, 61, 97))]
     acc = core.pmap(shard, shards)
     if os.environ.get("VMC_C01_DUMP"):
         with open(os.environ["VMC_C01_DUMP"], "w") as f:
